@@ -247,6 +247,21 @@ CHECKS.update({
     ),
 })
 
+CHECKS.update({
+    "C19": (
+        "model_checking",
+        "vloop-explorer",
+        "stateless explicit-state exploration (prefix replay, deviation bounding, fingerprint pruning) of one real APIClient over several consecutive "
+        "sessions: sequences of start/finish/connect/disconnect/force-disconnect/command/subscription/request calls (each its own task, also issued "
+        "before the loop drained) and device/fault events, against a reference session automaton driven only by call returns and the stop callback; "
+        "every execution ends with a probe (disconnect, full reconnect, command) that detects a wedged client",
+        "All call/event sequences up to the depth and deviation bound from eight seeded lifecycle states are executed on the real client; acceptance and "
+        "refusal of every call is compared with the reference at the moment it is issued.",
+        BASE,
+        "DESIGN.md §3 C19, §9",
+    ),
+})
+
 NOT_APPLICABLE: dict[str, str] = {}
 
 
